@@ -614,6 +614,8 @@ impl SortedWritesTable {
 
     /// Flush all pending removals, in parallel.
     fn parallel_delete(&mut self) -> bool {
+        #[cfg(feature = "verif-hooks")]
+        egglog_concurrency::verif::probe("parallel_delete");
         let shard_data = self.hash.shard_data();
         let pending_removals = &self.pending_state.pending_removals;
         let data = &self.data.data;
@@ -836,6 +838,8 @@ impl SortedWritesTable {
         exec_state: &ExecutionState,
         checker: C,
     ) -> bool {
+        #[cfg(feature = "verif-hooks")]
+        egglog_concurrency::verif::probe("parallel_insert");
         const BATCH_SIZE: usize = 1 << 18;
         // Parallel insert uses one giant parallel foreach. We have updates
         // pre-sharded, and one logical thread can process updates for each
@@ -849,6 +853,8 @@ impl SortedWritesTable {
         let pending_rows = &self.pending_state.pending_rows;
         let merge = self.merge.clone();
         let pending_adds = parallel::map_mut(self.hash.mut_shards(), |shard_id, shard| {
+            #[cfg(feature = "verif-hooks")]
+            egglog_concurrency::verif::yield_point(egglog_concurrency::verif::site::TABLE_SHARD);
             let shard_id = ShardId::from_usize(shard_id);
             let mut checker = checker.clone();
             let mut exec_state = exec_state.clone();
@@ -1040,6 +1046,17 @@ impl SortedWritesTable {
     }
 
     fn maybe_rehash(&mut self) {
+        #[cfg(feature = "verif-hooks")]
+        if let Some(min) = egglog_concurrency::verif::knob("rehash_min_stale") {
+            if self.data.stale_rows as u64 > min {
+                if parallelize_table_op(self.data.data.len()) {
+                    self.parallel_rehash();
+                } else {
+                    self.rehash();
+                }
+            }
+            return;
+        }
         if self.data.stale_rows <= cmp::max(16, self.data.data.len() / 2) {
             return;
         }
@@ -1051,6 +1068,8 @@ impl SortedWritesTable {
         }
     }
     fn parallel_rehash(&mut self) {
+        #[cfg(feature = "verif-hooks")]
+        egglog_concurrency::verif::probe("parallel_rehash");
         // Parallel rehashes go "hash-first" rather than "rows-first".
         //
         // We iterate over each shard and then write out new contents to a fresh row, in parallel.
@@ -1228,6 +1247,8 @@ impl SortedWritesTable {
     }
 
     fn rehash(&mut self) {
+        #[cfg(feature = "verif-hooks")]
+        egglog_concurrency::verif::probe("rehash");
         self.generation = self.generation.inc();
         Self::rehash_impl(
             self.sort_by,
